@@ -442,6 +442,15 @@ def _check(prop, tier, seed, args, t0):
     for o in obligations:
         solver_time[o['solver']] = solver_time.get(o['solver'], 0.0) + o['time']
         solver_count[o['solver']] = solver_count.get(o['solver'], 0) + 1
+    recheck = {}
+    for o in obligations:
+        if 'cvc5_recheck' in o:
+            k = o['cvc5_recheck'] if o['cvc5_recheck'] in ('unsat', 'sat', 'unknown') else 'error'
+            recheck[k] = recheck.get(k, 0) + 1
+            if k == 'sat':
+                # z3 proved it, cvc5 refutes it: one of the solvers (or the SMT-LIB translation) is wrong
+                errors.append('solver disagreement on %s: z3 unsat, cvc5 sat' % o['name'])
+                print('CHECKER-ERROR property=%s solver disagreement on %s: z3 unsat, cvc5 sat' % (prop, o['name']))
     samples = []
     for r in results:
         for o in r['obligations'][:2]:
@@ -455,6 +464,7 @@ def _check(prop, tier, seed, args, t0):
             checker_cmd='cd /verif && ./check %s --tier %s' % (prop, tier),
             trusted_base=meta.get('trusted_base', []) + COMMON_TRUSTED,
             functions_under_contract=functions,
+            independent_cvc5_recheck=recheck,
             functions_executed_symbolically=sorted({x for r in results for x in r.get('executed', ())}),
             units=len(results), paths=sum(r['paths'] for r in results),
             solver_obligations=solver_count, solver_time_s={k: round(v, 2) for k, v in solver_time.items()},
